@@ -195,7 +195,7 @@ def run(ctx):
         recs = lib.pmap(lambda c: vfy.run_case(ctx, c, tmp), cases)
     finally:
         shutil.rmtree(tmp, ignore_errors=True)
-    lines = [rec["model_line"] for rec in recs]
+    lines = vfy.model_lines(ctx, recs)
     # the model's lexical judgement on the same paths the oracle judged
     esc_lines, esc_idx = [], []
     for i, rec in enumerate(recs):
